@@ -64,6 +64,9 @@ func dump(args []string) {
 						continue
 					}
 					fmt.Printf("   %s\n", k)
+					if kx := fsx[k].KeyX(); kx != "" {
+						fmt.Printf("     = %s\n", kx)
+					}
 				}
 			}
 			continue
